@@ -274,22 +274,39 @@ func c12c(c *Ctx, v *variants.Variant) {
 				setVar = e.Text[:strings.Index(e.Text, "[")]
 			}
 		}
+		iLoop := before.evIndex("loop", iFill+1, func(t string) bool { return setVar != "" && t == "range "+setVar })
 		iList := before.evIndex("set", 0, func(t string) bool { return setVar != "" && strings.HasPrefix(t, list+"=append("+list+",#") })
 		iSort := before.evIndex("call", 0, func(t string) bool { return t == "sort.Strings("+list+")" })
 		iEOF := before.evIndex("set", 0, func(t string) bool { return t == list+"=append("+list+",\"EOF\")" })
 		hasEOFMark := setVar != "" && before.holds("ok("+setVar+"[\"!.\"])")
+		noEOFMark := setVar != "" && before.holds("!ok("+setVar+"[\"!.\"])")
 		iDel := before.evIndex("call", 0, func(t string) bool { return t == "delete("+setVar+",\"!.\")" })
+		// the marker itself never enters the list: it was deleted from the set before the list is built, it is known to
+		// be absent, or the loop skips it
+		skipPath, guarded := false, false
+		if iLoop >= 0 {
+			_, hi := loopSpan(before[iLoop:], before[iLoop].Text)
+			body := before[iLoop : iLoop+hi]
+			skipPath = body.holds(`#1=="!."`) && iList < 0
+			guarded = body.holds(`#1!="!."`)
+		}
+		knownAbsentBeforeLoop := iLoop >= 0 && before[:iLoop].holds("!ok("+setVar+"[\"!.\"])")
+		excluded := (iDel > iFill && iLoop >= 0 && iDel < iLoop) || guarded || skipPath || knownAbsentBeforeLoop
 		switch {
 		case iFill < 0:
 			bad = append(bad, "the expected labels are not de-duplicated through a set")
-		case iList < iFill:
+		case iLoop < 0 || (iList < iLoop && !skipPath):
 			bad = append(bad, "the list is not built from the de-duplicated set")
-		case iSort < iList:
+		case iSort < iLoop || (iList >= 0 && iSort < iList):
 			bad = append(bad, "the expected list reaches the message before sort.Strings (map iteration order would leak into the error text)")
-		case hasEOFMark && !(iDel > iFill && iDel < iList && iEOF > iSort):
+		case !excluded:
 			bad = append(bad, "the end-of-input marker \"!.\" must be removed from the set before the list is built and appended as EOF after sorting")
-		case !hasEOFMark && (iEOF >= 0 || iDel >= 0):
+		case hasEOFMark && !(iEOF > iSort):
+			bad = append(bad, "the end-of-input marker \"!.\" must be removed from the set before the list is built and appended as EOF after sorting")
+		case !hasEOFMark && iEOF >= 0:
 			bad = append(bad, "EOF is reported although the end-of-input marker was not among the failures")
+		case !hasEOFMark && !noEOFMark:
+			bad = append(bad, "the error is built without testing whether the end-of-input marker is among the failures")
 		}
 	}
 	if n == 0 {
